@@ -125,6 +125,45 @@ def rejects(env):
         env.no_raise('inside the tolerances: accepted', ValueError, lambda: cv.mat2SO3(Mx, check=True))
 
 
+@obligation('C11.check.tolerances_reach_the_rotation_check', functions=[f'{CV}:mat2SE3', f'{CV}:mat2Sim3', f'{CV}:mat2RxSO3', f'{CV}:from_matrix'], max_paths=64)
+def tol_plumbing(env):
+    """the caller's check / rtol / atol are the ones the rotation check (mat2SO3, contract C11.check.rejects_non_rotations) is run with - for
+    every wrapper and for from_matrix with every ltype; rtol and atol deliberately different"""
+    import inspect
+    cv = env.load(CV); pp = env.load('pypose'); T = env.T
+    X = group_elem(env, 'Sim3', 'X', qregimes=('generic',))
+    tx, qx, sx = S.parts('Sim3', X)
+    env.assume('scale in [1e-3, 1e3] (the property quantifier)', (sx >= Q(1, 1000)) & (sx <= 1000))
+    R = S.quat_matrix(T, qx)
+    rt, at = (Q(1, 300), Q(1, 7000)) if env.sym else (1 / 300, 1 / 7000)
+    orig = cv.mat2SO3
+    sig = inspect.signature(orig)
+    seen = []
+    def rec(*a, **k):
+        b = sig.bind(*a, **k); b.apply_defaults()
+        seen.append((b.arguments['check'], b.arguments['rtol'], b.arguments['atol']))
+        return orig(*a, **k)
+    env.stub(cv, 'mat2SO3', rec)
+    calls = {
+        'mat2SE3': lambda chk: cv.mat2SE3(S.group_matrix4(T, 'SE3', X[0:7]), check=chk, rtol=rt, atol=at),
+        'mat2RxSO3': lambda chk: cv.mat2RxSO3(sx * R, check=chk, rtol=rt, atol=at),
+        'mat2Sim3': lambda chk: cv.mat2Sim3(S.group_matrix4(T, 'Sim3', X), check=chk, rtol=rt, atol=at),
+        'from_matrix(SO3)': lambda chk: cv.from_matrix(R, pp.SO3_type, check=chk, rtol=rt, atol=at),
+        'from_matrix(SE3)': lambda chk: cv.from_matrix(S.group_matrix4(T, 'SE3', X[0:7]), pp.SE3_type, check=chk, rtol=rt, atol=at),
+        'from_matrix(RxSO3)': lambda chk: cv.from_matrix(sx * R, pp.RxSO3_type, check=chk, rtol=rt, atol=at),
+        'from_matrix(Sim3)': lambda chk: cv.from_matrix(S.group_matrix4(T, 'Sim3', X), pp.Sim3_type, check=chk, rtol=rt, atol=at),
+    }
+    for nm, f in calls.items():
+        for chk in (True, False):
+            del seen[:]
+            f(chk)
+            name = f'{nm}(check={chk}): the rotation block is checked with the caller\'s check, rtol and atol'
+            if not seen:          # the wrapper no longer delegates to mat2SO3: this by-contract argument does not apply
+                env._record(name, 'unknown' if env.sym else 'passed', {'why': 'mat2SO3 is not called; clause not applicable to this source'})
+            else:
+                env.holds(name, all(c is chk and r == rt and a == at for c, r, a in seen))
+
+
 def Rx(T, a):
     c, s = T.cos(a), T.sin(a); O = a * 0
     return S.mat(T, [[O + 1, O, O], [O, c, -s], [O, s, c]])
